@@ -1164,11 +1164,41 @@ pub fn gen_long_spec(rng: &mut Rng, p: &SpecProfile, max_n: u32) -> FileSpec {
 	}
 }
 
+/// The length of an incompressible blob (content: `blob(len, seed, false)`) which, alone in a block, compresses to
+/// `target` bytes with `codec` — aimed with the codec libraries themselves, the way refill boundaries are aimed with
+/// the token map. (The crate may frame a few bytes differently: callers draw `target` from a small window.)
+pub fn aim_blob_len(codec: Codec, seed: u64, target: usize) -> u32 {
+	let mut len = target.saturating_sub(16) as i64;
+	for _ in 0..3 {
+		let mut data = ref_datum::encode_long(len);
+		data.extend_from_slice(&blob(len as u32, seed, false));
+		let c = ref_container::compress(codec, &data).len() as i64;
+		if c == target as i64 {
+			break;
+		}
+		len = (len + target as i64 - c).max(1);
+	}
+	len as u32
+}
+
 pub fn gen_blob_spec(rng: &mut Rng, codec: Codec) -> FileSpec {
 	let mut ops = vec![];
 	let n = 1 + rng.usize(3);
 	for _ in 0..n {
-		let (len, compressible) = match rng.below(7) {
+		let mut seed = rng.next_u64();
+		let (len, compressible) = match rng.below(9) {
+			// AIMED: alone in its block, this blob's compressed form ends 0-20 bytes before (or a few after) the 32 KiB /
+			// 64 KiB mark at which the encoders' output buffers are exactly full
+			8 => {
+				let mark = *rng.pick(&[32usize, 32, 64]) * 1024;
+				let target = (mark as i64 + rng.range(-20, 3)) as usize;
+				seed |= 8; // (content kinds of `blob` are for compressible ones; keep the seed's low bits out of it)
+				let len = aim_blob_len(codec, seed, target);
+				ops.push(Op::FinishBlock);
+				ops.push(Op::Blob { len, seed, compressible: false });
+				ops.push(Op::FinishBlock);
+				continue;
+			}
 			// tens to hundreds of KiB that compress a thousandfold and more (zeros, one repeated byte, long runs: see
 			// `blob`): compressed forms of a few dozen bytes, expansion ratios beyond any "reasonable" bound
 			6 => ((40_000 + rng.below(260_000)) as u32, true),
@@ -1179,15 +1209,13 @@ pub fn gen_blob_spec(rng: &mut Rng, codec: Codec) -> FileSpec {
 			}
 			// compressed form crosses the 32 KiB starting buffer of the encoders
 			2 | 3 => ((33_000 + rng.below(40_000)) as u32, false),
-			// right around 32 KiB
+			// right around 32 KiB / 64 KiB: an incompressible block whose compressed form ends on, or a few bytes before
+			// or after, the mark at which the encoders' output buffers are full
 			4 => ((32 * 1024 + rng.range(-40, 40)) as u32, false),
+			7 => ((*rng.pick(&[32i64, 32, 64]) * 1024 + rng.range(-36, 8)) as u32, false),
 			_ => (rng.below(200) as u32, rng.bool()),
 		};
-		ops.push(Op::Blob {
-			len,
-			seed: rng.next_u64(),
-			compressible,
-		});
+		ops.push(Op::Blob { len, seed, compressible });
 		if rng.chance(1, 3) {
 			ops.push(Op::FinishBlock);
 		}
